@@ -3,6 +3,9 @@ use crate::engine::{Entry, entry};
 pub mod c20;
 pub mod c26;
 pub mod c27;
+pub mod c28;
+pub mod c29;
+pub mod c30;
 pub mod c31;
 pub mod c32;
 pub mod c34;
@@ -32,6 +35,9 @@ pub fn registry() -> Vec<Entry> {
         entry::<packet::C25>(false),
         entry::<c26::C26>(false),
         entry::<c27::C27>(false),
+        entry::<c28::C28>(false),
+        entry::<c29::C29>(false),
+        entry::<c30::C30>(true),
         entry::<c31::C31>(false),
         entry::<c32::C32>(false),
         entry::<c34::C34>(false),
